@@ -3,7 +3,8 @@
 (* Behaviour generator for the C11 conformance driver.  Every generated    *)
 (* step is a step of NtsCookies!Next; what is emitted is the schedule the  *)
 (* environment contributes: clock jumps (key rotation / retirement),       *)
-(* which datagram of each exchange is lost, and requests of other clients. *)
+(* which datagram of each exchange is lost, and requests of other clients  *)
+(* (number of cookie/placeholder fields, length of the unique identifier). *)
 (*   Exhaustive = FALSE (tlc -simulate): one random decision per step,     *)
 (*     drawn with RandomElement and bound through singleton \E; a per-     *)
 (*     behaviour bias steers the loss rate so that every pool level 8..1   *)
@@ -31,6 +32,7 @@ TickChoices ==
 ProbeChoices(k) ==
   IF Exhaustive THEN {0} \cup ProbeNs
   ELSE {IF ProbeNs # {} /\ Pick(1 .. 100) <= ProbePct THEN Pick(ProbeNs) ELSE 0}
+UidChoices(k) == IF Exhaustive THEN ProbeUids ELSE {Pick(ProbeUids)}
 DropChoices(p) ==
   IF Exhaustive THEN Drops
   ELSE LET r == Pick(1 .. 100)
@@ -44,16 +46,17 @@ Finished == nex = MaxEx /\ phase = "idle"
 GIdle ==
   \E t \in TickChoices :
     IF t > 0
-    THEN Tick(t) /\ hist' = Append(hist, [op |-> "tick", d |-> t, n |-> 0, drop |-> "none"]) /\ UNCHANGED plan
+    THEN Tick(t) /\ hist' = Append(hist, [op |-> "tick", d |-> t, n |-> 0, u |-> 0, drop |-> "none"]) /\ UNCHANGED plan
     ELSE IF pool = << >>
     THEN Rekey /\ UNCHANGED <<hist, plan>>
     ELSE \E pr \in ProbeChoices(nex) :
       IF pr > 0
-      THEN Probe(pr) /\ hist' = Append(hist, [op |-> "probe", d |-> 0, n |-> pr, drop |-> "none"]) /\ UNCHANGED plan
+      THEN \E u \in UidChoices(nex) :
+             Probe(pr, u) /\ hist' = Append(hist, [op |-> "probe", d |-> 0, n |-> pr, u |-> u, drop |-> "none"]) /\ UNCHANGED plan
       ELSE \E dr \in DropChoices(Len(pool)) :
              /\ SendRequest
              /\ plan' = dr
-             /\ hist' = Append(hist, [op |-> "x", d |-> 0, n |-> 0, drop |-> dr])
+             /\ hist' = Append(hist, [op |-> "x", d |-> 0, n |-> 0, u |-> 0, drop |-> dr])
 
 GNext ==
   /\ ~Finished
@@ -76,5 +79,7 @@ GTicks   == {1, 2, 3, 5, 6}
 GTicksX  == {6}
 GProbes  == {1, 2, 5, 7, 8, 9, 10, 12}
 GProbesX == {8}
+GUids    == {32, 36, 64, 160, 200, 300, 320}
+GUidsX   == {200}
 NoProbes == {}
 =============================================================================
